@@ -119,6 +119,11 @@ class World:
             out = ("ret", None)
             self.outcomes.append(out)
             return out
+        if name == "health":
+            list(self.servers.values())[args[0]].health = args[1]
+            out = ("ret", None)
+            self.outcomes.append(out)
+            return out
         self.net.begin_call(i)
         try:
             if name in ("__getitem__", "__setitem__", "__delitem__"):
